@@ -62,8 +62,8 @@ func H_C03_text() {
 	// quick: 2 bytes on each side with the default delimiters, 1 byte with custom ones;
 	// thorough: 2 bytes everywhere
 	n := 1
-	if cfg == 0 || vfTier() == 1 {
-		n = 2
+	if (cfg == 0 && form != 4) || vfTier() == 1 {
+		n = 2 // (the comment form has a symbolic body as well: one text byte per side in quick)
 	}
 	t1 := ndName("t1", n)
 	t2 := ndName("t2", n)
